@@ -852,6 +852,135 @@ def run_chunk(payload: Tuple) -> Dict[str, Any]:
     return rep.part()
 
 
+
+# ---------------------------------------------------------------------------
+# S3 backend: the table root is a key prefix
+# ---------------------------------------------------------------------------
+S3_BUCKET = "bkt"
+S3_COMPONENTS = ("..", ".", "", "data", "x", "secret", "root_sibling")
+S3_PREFIXES = ("pre/root", "root")
+S3_ENTRIES = ("read_file", "open_file", "open_seekable", "read_json", "exists", "list_files", "get_size",
+              "get_modified_time", "write_file", "write_json", "delete_file", "write_file_cas",
+              "get_arrow_path", "open_parquet_source", "write_data_file")
+S3_EXTRAS = EXTRAS + ("/bkt/pre/outside/secret", "bkt/pre/outside/secret", "s3://bkt/pre/outside/secret",
+                      "pre/root/../outside/secret", "../root/data/f", "pre/root/data/f", "data/f/../../../outside/secret",
+                      "data/../../root_sibling/f", "..", "../", "../..", "./..", "data/..", "data/../..")
+
+
+def s3_paths(depth: int) -> List[str]:
+    out: Dict[str, None] = {}
+    for n in range(1, depth + 1):
+        for seq in itertools.product(S3_COMPONENTS, repeat=n):
+            out["/".join(seq)] = None
+            out["/" + "/".join(seq)] = None
+    for e in S3_EXTRAS:
+        out[e] = None
+    return list(out)
+
+
+def _s3_outside(prefix: str) -> Dict[str, bytes]:
+    """Objects of the bucket that do not belong to the table (sibling prefixes, parents, string-prefix siblings)."""
+    parent = prefix.rsplit("/", 1)[0] + "/" if "/" in prefix else ""
+    return {parent + "outside/secret": b"S1", parent + "secret": b"S2", parent + "root_sibling/f": b"S3",
+            parent + "root_sibling/data/secret": b"S4", "secret": b"S5", prefix: b"S6", prefix + "x": b"S7",
+            parent + "outside/data/secret": b"S8", parent + "data/secret": b"S9", "outside/secret": b"S10",
+            parent + "x": b"S11", parent + "data/f": b"S12"}
+
+
+def run_s3_chunk(payload: Tuple) -> Dict[str, Any]:
+    """Every path string x every S3 storage / data-file entry point x key prefix: every request the library sends
+    names a key below '<prefix>/', and no object outside the prefix is created, changed or removed."""
+    import pyarrow as pa
+    import pyarrow.parquet as pq
+
+    from datashard.data_operations import DataFileManager
+    from datashard.storage_backend import S3StorageBackend
+    from dsmc.fakes3 import Obj, S3World
+
+    _tag, entry, prefix, tier, seed, only = payload
+    rep = Report(PROP, tier, seed, "exploration")
+    depth = 3 if tier == "quick" else 4
+    paths = s3_paths(depth) if only is None else [only]
+    buf = io.BytesIO()
+    pq.write_table(pa.table({"id": [1]}), buf)
+    parquet = buf.getvalue()
+    outside = _s3_outside(prefix)
+    inside = {prefix + "/data/f": parquet, prefix + "/data/x": b"{}", prefix + "/x": b"{}", prefix + "/secret": b"{}",
+              prefix + "/metadata/m.json": b"{}"}
+    with S3World(bucket=S3_BUCKET) as w:
+        s3 = w.s3
+        S = S3StorageBackend(bucket=S3_BUCKET, prefix=prefix)
+        dfm = DataFileManager(None, S)  # the data-file manager only uses its storage backend
+        from datashard import Schema
+        schema = Schema(schema_id=1, fields=[{"id": 1, "name": "id", "type": "long", "required": True}])
+        template = {k: Obj(v, T0) for k, v in {**outside, **inside}.items()}
+        seen: List[Any] = []
+        s3.gates = [lambda req: seen.append(req)]
+
+        def call(p: str) -> Any:
+            if entry in ("read_file", "read_json", "exists", "list_files", "get_size", "get_modified_time", "delete_file"):
+                return getattr(S, entry)(p)
+            if entry in ("open_file", "open_seekable"):
+                f = getattr(S, entry)(p)
+                try:
+                    return f.read(4)
+                finally:
+                    _close(f)
+            if entry == "write_file":
+                return S.write_file(p, b"W")
+            if entry == "write_json":
+                return S.write_json(p, {"w": 1})
+            if entry == "write_file_cas":
+                return S.write_file_cas(p, b"W", None)
+            if entry == "get_arrow_path":
+                return dfm._get_arrow_path(p)
+            if entry == "open_parquet_source":
+                src = dfm.open_parquet_source(p)
+                try:
+                    return pq.read_table(src).num_rows
+                finally:
+                    _close(src)
+            if entry == "write_data_file":
+                return dfm.write_data_file(p, [{"id": 1}], schema).file_path
+            raise HarnessError(entry)
+
+        for p in paths:
+            s3.load_state(template)
+            del seen[:]
+            try:
+                out = ("ok", call(p))
+            except HarnessError:
+                raise
+            except Exception as e:  # noqa
+                out = ("raise", type(e).__name__)
+            rep.add("evaluations")
+            rep.add("s3_cases")
+            if ".." in p.split("/"):
+                rep.nontrivial(("s3", entry, prefix, p))
+            detail = {"entry": entry, "prefix": prefix, "path": p, "outcome": repr(out)[:200],
+                      "requests": [r.label() for r in seen][:8]}
+            key = {"entry": entry, "root": "s3_prefix", "kind": None}
+            bad = [r for r in seen if not r.key.startswith(prefix + "/")]
+            rep.add("s3_requests_checked", len(seen))
+            if bad:
+                rep.violation({**key, "kind": "request_outside_prefix:" + bad[0].op}, detail)
+                continue
+            if entry == "get_arrow_path" and out[0] == "ok" and not str(out[1]).startswith(f"{S3_BUCKET}/{prefix}/"):
+                rep.violation({**key, "kind": "arrow_path_outside_prefix"}, detail)
+                continue
+            now = {k: o.body for k, o in s3.objs.items() if not k.startswith(prefix + "/")}
+            if now != outside:
+                rep.violation({**key, "kind": "object_outside_prefix_changed"},
+                              {**detail, "changed": sorted(set(now.items()) ^ set(outside.items()))[:4].__repr__()})
+                continue
+            if out[0] == "ok" and entry in ("read_file", "open_file", "open_seekable") and out[1] in set(outside.values()):
+                rep.violation({**key, "kind": "outside_content_returned"}, detail)
+                continue
+            rep.add("s3_cases_raised" if out[0] == "raise" else "s3_cases_served_inside_prefix")
+        s3.gates = []
+    return rep.part()
+
+
 def run(tier: str, seed: int) -> Report:
     rep = Report(PROP, tier, seed, "exploration")
     npaths = {e: n_paths(depth_of(e, tier)) for e in ENTRIES}
@@ -866,7 +995,13 @@ def run(tier: str, seed: int) -> Report:
         random.Random(seed).shuffle(payloads)
     for part in pmap("checks.c17", "run_chunk", payloads):
         rep.merge(part)
-    expect = sum(npaths.values()) * len(MODES)
+    s3_payloads = [("s3", e, pfx, tier, seed, None) for e in S3_ENTRIES for pfx in S3_PREFIXES]
+    for part in pmap("checks.c17", "run_s3_chunk", s3_payloads):
+        rep.merge(part)
+    n_s3 = len(s3_paths(3 if tier == "quick" else 4)) * len(s3_payloads)
+    rep.cov["s3_path_strings"] = len(s3_paths(3 if tier == "quick" else 4))
+    rep.cov["s3_entry_points"] = list(S3_ENTRIES)
+    expect = sum(npaths.values()) * len(MODES) + n_s3
     n = max(npaths.values())
     rep.cov["paths"] = n
     rep.cov["paths_per_entry_point"] = dict(npaths)
@@ -909,13 +1044,20 @@ def run(tier: str, seed: int) -> Report:
         "(in-flight markers, data, manifests)",
         "symlink layout is fixed (lnk_out, lnk_in, data/lnk_up, data/lnk_secret, link->root); races between check and "
         "use (a link re-pointed mid-call) are out of scope",
-        "Transaction.delete_files and the S3 backend are not entry points of this check",
+        "S3 backend: the root is the key prefix of the backend; keys are opaque strings, so '<prefix>/../x' is a key "
+        "below the prefix (it names no other object) - what is judged is that every request names a key starting with "
+        "'<prefix>/', that no object outside the prefix changes and that no outside content is returned",
+        "Transaction.delete_files is not an entry point of this check",
     ]
     return rep
 
 
 def replay(case: Dict[str, Any]) -> Dict[str, Any]:
     key, det = case["key"], case["detail"]
+    if key.get("root") == "s3_prefix":
+        part = run_s3_chunk(("s3", det["entry"], det["prefix"], case.get("tier", "quick"), case.get("seed", 0), det["path"]))
+        hit = [v for v in part["violations"].values() if v["key"] == key]
+        return {"violated": bool(hit), "matching": hit[:1]}
     part = run_chunk((key["entry"], key["root"], case.get("tier", "quick"), case.get("seed", 0), 0, 1, det["path"]))
     hit = [v for v in part["violations"].values() if v["key"] == key]
     return {"violated": bool(hit), "matching": hit[:1]}
